@@ -419,6 +419,12 @@ impl Property for C10 {
             main.header.bound = tmp.header.bound;
             main.insts.extend(tmp.insts);
         }
+        if rng.chance(1, 250) {
+            // thousands of type ids scattered over the 32-bit space, each consumed (collisions in a lossy id -> type map)
+            let mut tmp = Stream { header: main.header.clone(), insts: vec![] };
+            crate::producer::plant_sparse_ids(rng, &mut tmp);
+            main.insts.extend(tmp.insts);
+        }
         // the id bound is a header word the rule must not look at: usually plausible, sometimes 0, 1, smaller than ids in use
         if rng.chance(1, 2) {
             let rids: Vec<u32> = main.insts.iter().filter_map(|i| i.rid).collect();
